@@ -8,7 +8,7 @@ BASE=dict(
   DevFreeAlias='FALSE', DevReplDup='FALSE', Family='"roots"', InitSizes='{0, 1, 2, 3, 4}', NSectors=4,
   UnknownSector=9, NewSector=8, Allowance=100000000, Collateral=100000000, CPrice=5, MaxNum=2, MaxIdxLen=4,
   Edges='FALSE', PF='{"ok", "expired"}', CF='{"ok", "badsig"}', SF='{"ok", "bad"}', TF='{"ok"}', Amts='{1}',
-  Signers='{"x"}', RenewKinds='{"renew"}', MaxExchanges=1, Dur=256, TipChoices='{0}')
+  Signers='{"x"}', RenewKinds='{"renew"}', MaxExchanges=1, Dur=164, TipChoices='{0}')
 ORDER=list(BASE.keys())
 ROOTS_INV='RootsMatchRevision Readable DoublySigned SerialisedPerContract SolventContract NonNegative AttachedExist'
 ROOTS_PROP='AbortIsNoop RootsOnlyWithCommit RevMonotone Immutable PayoutSumConstant NoHostToRenter ExactCharge SignedCommit CommitHoldsLock BadRequestIsNoop'
